@@ -2,6 +2,7 @@ package main
 
 import (
 	"bufio"
+	"bytes"
 	"fmt"
 	"io"
 	"strings"
@@ -203,6 +204,43 @@ func genCR(w *bufio.Writer, thorough bool, r *Rng) {
 			sizes = append(sizes, fmt.Sprint(r.Pick([]int{4096, 65536, 100000})))
 		}
 		fmt.Fprintf(w, "CR %s %s %d %s %d %s\n", opts, dataTok(r, sz, lvl), r.Pick([]int{0, 0, 1, 5000}), failTok, r.Intn(4), strings.Join(sizes, " "))
+	}
+	// a Read whose buffer is filled exactly by the header and the first block (nothing spills over), then more
+	// reads: the size of the first block is asked from the reader itself
+	for i := 0; i < 12; i++ {
+		bs := 65536
+		bc := r.Intn(2)
+		lvl := r.Pick([]int{0, 0, 512})
+		opts := fmt.Sprintf("bs=%d,bc=%d,cc=1,lvl=%d", bs, bc, lvl)
+		tok := dataTok(r, 2*bs+r.Intn(bs), lvl)
+		zr := lz4.NewCompressingReader(rc{&scriptSrc{data: parseData(tok), failAt: -1}})
+		o, _ := parseOptsGo(opts)
+		_ = zr.Apply(o...)
+		probe := make([]byte, 1<<20)
+		n, _ := io.ReadFull(zr, probe)
+		if n < 11 {
+			continue
+		}
+		first := int(uint32(probe[7])|uint32(probe[8])<<8|uint32(probe[9])<<16|uint32(probe[10])<<24) & 0x7FFFFFFF
+		exact := 7 + 4 + first + 4*bc
+		fmt.Fprintf(w, "CR %s %s 0 -1 0 %d %d %d 4096\n", opts, tok, exact, r.Pick([]int{exact, 5, 100000}), r.Pick([]int{1, 70000}))
+		fmt.Fprintf(w, "CR %s %s 0 -1 0 %d %d 4096\n", opts, tok, exact-1, 1)
+	}
+	// blocks larger than the window with content of period 65536; HC levels with a final literal run of 15+255k bytes
+	{
+		chunk := r.Bytes(65536)
+		var c1 []byte
+		for k := 0; k < 3; k++ {
+			c1 = append(c1, chunk...)
+		}
+		fmt.Fprintf(w, "CR bs=262144,bc=0,cc=1,lvl=0 %s 0 -1 0 100000\n", saveBlob("credge", c1))
+		fmt.Fprintf(w, "CR - %s 0 -1 0 4096\n", saveBlob("credge", append(c1, r.Bytes(77)...)))
+		for _, tail := range []int{269, 270, 271, 525} {
+			text := bytes.Repeat([]byte("the quick brown fox jumps over the lazy dog. "), 30)
+			d := append(append([]byte{}, text...), r.Bytes(tail)...)
+			fmt.Fprintf(w, "CR bs=65536,bc=0,cc=1,lvl=%d %s 0 -1 0 65536\n", r.Pick([]int{512, 2048}), saveBlob("crtail", d))
+			fmt.Fprintf(w, "CR bs=65536,bc=0,cc=1,lvl=0 %s 0 -1 0 65536\n", saveBlob("crtail", d))
+		}
 	}
 	// reuse: Reset (and Apply) in the middle of a stream, after io.EOF, and after a source failure
 	bss := []int{65536, 262144, 1048576, 4194304}
